@@ -1039,7 +1039,7 @@ func runConcSample(bin, prop string, seed uint64, thorough bool) *RunReport {
 	g.BadBias, g.Human = 4, 0
 	g.W["list"], g.W["show"], g.W["where"], g.W["prune_dry"], g.W["init"], g.W["file"] = 0, 0, 0, 0, 0, 1
 	g.W["new_task"] = 30
-	sc.Config.Clock = []string{"fine", "coarse", "second", "fine"}[rng.Intn(4)]
+	sc.Config.Clock = []string{"fine", "coarse", "second", "fine", "back", "leap"}[rng.Intn(6)]
 	if (prop == "C13" || prop == "C02") && rng.Chance(1, 3) {
 		sc.Config.Layout = "legacy" // a store that still uses events.jsonl
 	}
